@@ -1210,6 +1210,41 @@ func c03Case(w *core.Worker, i int) {
 			}
 		}
 	}
+	// chains: a NATURAL / USING join whose left side is itself the result of a NATURAL / USING join (the columns merged by the
+	// first join are common columns of the second). Each chain has an equivalent spelled with ON conditions — the form the
+	// reference evaluator judges above — and must return the same bag of rows
+	{
+		chains := []struct{ name, chain, on, sel, selOn string }{
+			{"natural+natural", "a NATURAL JOIN b NATURAL JOIN c", "a JOIN b ON a.id = b.id AND a.k = b.k JOIN c ON c.id = a.id AND c.k = a.k", "id, k, v, w", "a.id, a.k, a.v, b.w"},
+			{"using+natural", "a JOIN b USING (id, k) NATURAL JOIN c", "a JOIN b ON a.id = b.id AND a.k = b.k JOIN c ON c.id = a.id AND c.k = a.k", "id, k, v, w", "a.id, a.k, a.v, b.w"},
+			{"using(k)+natural(k)", "(SELECT k, v FROM a) a2 JOIN (SELECT k, w FROM b) b2 USING (k) NATURAL JOIN (SELECT k, id AS cid FROM c) c2", "a JOIN b ON a.k = b.k JOIN c ON c.k = a.k", "k, v, w, cid", "a.k, a.v, b.w, c.id"},
+			{"natural+using", "a NATURAL JOIN b JOIN c USING (k)", "a JOIN b ON a.id = b.id AND a.k = b.k JOIN c ON c.k = a.k", "k, v, w, c.id", "a.k, a.v, b.w, c.id"},
+			{"natural-left+natural-left", "a NATURAL LEFT JOIN b NATURAL LEFT JOIN c", "a LEFT JOIN b ON a.id = b.id AND a.k = b.k LEFT JOIN c ON c.id = a.id AND c.k = a.k", "id, k, v, w", "a.id, a.k, a.v, b.w"},
+			{"using-left+natural-left", "a LEFT JOIN b USING (id, k) NATURAL LEFT JOIN c", "a LEFT JOIN b ON a.id = b.id AND a.k = b.k LEFT JOIN c ON c.id = a.id AND c.k = a.k", "id, k, v, w", "a.id, a.k, a.v, b.w"},
+		}
+		for _, ch := range chains {
+			if big && r.P(50) {
+				continue
+			}
+			q1 := "SELECT " + ch.sel + " FROM " + ch.chain
+			q2 := "SELECT " + ch.selOn + " FROM " + ch.on
+			r1, ok1 := rowsOfQ(s, q1)
+			r2, ok2 := rowsOfQ(s, q2)
+			if !ok1 || !ok2 {
+				viol("query-error", q1+" / "+q2, "one of the two spellings of a join chain fails", "", "")
+				continue
+			}
+			judged++
+			qtexts = append(qtexts, q1)
+			w.Count("join_chains_compared", 1)
+			if len(r2) > 0 {
+				w.Count("join_chains_with_rows", 1)
+			}
+			if strings.Join(r1, "\n") != strings.Join(r2, "\n") {
+				viol("rows-differ:chain:"+ch.name, q1, fmt.Sprintf("the chain returns %d rows, its spelling with ON conditions (%s) returns %d", len(r1), q2, len(r2)), fmt.Sprint(len(r1)), fmt.Sprint(len(r2)))
+			}
+		}
+	}
 	// multi-column USING / NATURAL outer joins: several merged columns, NULLs in the first of them
 	for _, jk := range []string{"LEFT", "RIGHT", "FULL", "INNER"} {
 		for _, uc := range []string{"k, id", "id, k", ""} {
@@ -1391,4 +1426,22 @@ func c03Shape(q *rquery) string {
 	}
 	sort.Strings(parts)
 	return strings.Join(parts, "+")
+}
+
+// rowsOfQ runs one query in the session and returns its rows as a sorted bag of keys.
+func rowsOfQ(s *core.Sess, q string) ([]string, bool) {
+	res := s.Exec(q)
+	if res.Err != nil || len(res.Views) != 1 {
+		return nil, false
+	}
+	var out []string
+	for _, row := range res.Views[0].Rows {
+		var x []string
+		for _, v := range row {
+			x = append(x, valKeyStr(v))
+		}
+		out = append(out, strings.Join(x, "|"))
+	}
+	sort.Strings(out)
+	return out, true
 }
